@@ -28,7 +28,7 @@ ASSUMPTIONS = [
 REQUIRED_COUNTERS = {"runs": 30, "rows_checked": 200, "members_decoded": 300, "losses_recomputed": 200, "snapshots": 100,
                      "multi_call_runs": 10, "extreme_runs": 5, "tile_repeat_distinguishable": 5}
 SHARDS = {"quick": 16, "thorough": 16}
-SHARD_WATCHDOG = {"quick": 900, "thorough": 5400}
+SHARD_WATCHDOG = {"quick": 1500, "thorough": 10800}
 
 
 def gen_cases(tier, seed):
@@ -60,9 +60,17 @@ def run_case(desc, ctx):
     model_fn = CG.model_for(cfg)
     done_batches = 0
     with CM.RunMonitor(cal) as mon:
-        for n in calls:
+        for ci, n in enumerate(calls):
+            if ci > 0 and cfg["scheduler"] != "rl" and rng.random() < 0.3:
+                # a legitimate reconfiguration between calls: rows recorded so far must keep their meaning
+                rows_now = int(cal.n_sampled_params)
+                new = G.gen_lineup(rng, n=int(rng.integers(1, 4)), kinds=G.HISTORY_FREE + (["BestBatch"] if rows_now >= 2 else []), max_bs=2)
+                with quiet():
+                    cal.set_samplers([G.build_sampler(d) for d in new])
+                wit.setdefault("set_samplers_before_call", {})[ci] = [d["kind"] for d in new]
+                c["set_samplers_between_calls"] = c.get("set_samplers_between_calls", 0) + 1
             try:
-                with quiet(), G.time_limit(120):
+                with quiet(), G.time_limit(G.LIMIT):
                     cal.calibrate(n)
                 done_batches += n
             except G.Timeout:
